@@ -465,6 +465,10 @@ def make_scenario(seed, profile=None, index=0):
             noise_mode = "homo"
         if prof.get("noise_rng_global") and rng.random() < prof["noise_rng_global"]:
             noise["rng"] = "global"
+    if nkind == "none" and rng.random() < prof.get("declared0_p", 0.0):
+        # a noiseless target that the user declares noisy: every repeated observation is an exact tie
+        opts_noise["uncertainty_handling"] = True
+        nkind = "declared0"
     scn["noise"] = noise
     scn["noise_kind"] = nkind
     cons = None
@@ -510,7 +514,7 @@ def make_scenario(seed, profile=None, index=0):
             if nx is not None:
                 scn["x0"] = nx
                 scn["x0_class"] = "infeasible" if mode == "infeasible_near" else mode
-    opts = gen_options(rng, D, prof, noise_mode)
+    opts = gen_options(rng, D, prof, "homo" if nkind == "declared0" else noise_mode)
     opts.update(opts_noise)
     opts.update(prof.get("force_options", {}))
     scn["options"] = opts
